@@ -44,14 +44,10 @@ func escapeTemplate(tmpl *Template, node parse.Node, name string) error {
 		// Prevent execution of unsafe templates.
 		if t := tmpl.set[name]; t != nil {
 			t.escapeErr = err
-			// A template whose only problem is that it ends in a non-text context keeps
-			// its tree: it cannot be executed on its own (escapeErr), but templates that
-			// call it in a suitable context are valid and need it, whether they were
-			// analysed before or are analysed later.
-			if c.err != nil {
-				t.text.Tree = nil
-				t.Tree = nil
-			}
+			// The template keeps its tree: it cannot be executed on its own (escapeErr is
+			// checked before every execution), but templates that call it in a context
+			// in which it is valid need it, whether they were analysed before or are
+			// analysed later. A caller for which it is not valid fails its own analysis.
 		}
 		// Forget what the failed analysis recorded. Otherwise a later analysis of a
 		// template that calls this one would be answered from the stale output
